@@ -45,6 +45,9 @@ def gen_cases(tier, seed):
     for size in (0, 9):
         for when in ("never", "before", "at_deadline"):
             cases.append({"t": "send", "size": size, "when": when})
+            # a paced link: virtual time passes between the sender's calls while the file is sent (less than / exactly / more than a check period)
+            for pace in (IVL // 7, IVL, IVL + 3):
+                cases.append({"t": "send", "size": size if size else 17, "when": when, "pace": pace})
             cases.append({"t": "send", "size": size, "when": when, "other_entity": True})
     # the same receiver scenarios while another entity of the process has configured its own fault handler table
     cases += [dict(c, other_entity=True) for c in cases if c["t"] == "recv" and c["n"] <= 2 and c["L"] <= 2]
@@ -239,7 +242,24 @@ def run_send(case):
     cfg = {"mode": "unack", "closure": True, "size": case["size"], "seg": 4, "check_ivl_ms": IVL, "fs": "mem"}
     obs = {"send_cases": 1}
     with World(cfg) as w:
-        if not prep.src_to(w, "WAITING_FOR_FINISHED"):
+        if case.get("pace"):
+            w.put()
+            for _ in range(case["size"] + 10):
+                try:
+                    w.S.sm()
+                except Exception as e:  # noqa: BLE001
+                    return [{"clause": "call-raised-while-sending", "etype": type(e).__name__, "msg": str(e)[:150]}], obs, None
+                w.S.outbox.clear()
+                if w.S.h.step.name != "SENDING_FILE_DATA" and any(e["d"].get("kind") == "EOF" for e in w.log.of("tx", "S")):
+                    break
+                vclock.advance(case["pace"])
+            eofs = [wire.short(e["d"]) for e in w.log.of("tx", "S") if e["d"].get("kind") == "EOF"]
+            fhs = [(e["which"], e["cond"]) for e in w.log.of("fh", "S")]
+            if w.S.h.step.name != "WAITING_FOR_FINISHED" or len(eofs) != 1 or fhs:
+                return [{"clause": "sender-not-waiting-for-finished-after-paced-sending", "step": w.S.h.step.name, "eofs": eofs, "fh": fhs,
+                         "trace": trace_summary(w, None, 30)}], obs, None
+            obs["send_cases_with_paced_link"] = 1
+        elif not prep.src_to(w, "WAITING_FOR_FINISHED"):
             return [{"clause": "harness-could-not-prepare-step", "step": w.S.h.step.name}], obs, None
         p = Probe(w, w.S)
         tc = prep.tx_conf(w)
@@ -281,4 +301,4 @@ def exhaustive(tier):
     return True
 
 
-REQUIRED = {"recv_cases": 500, "recv_success": 50, "recv_fault": 50, "send_cases": 6, "race_cases": 100, "cases_next_to_other_entity_with_own_fault_table": 50, "sender_check_limit_faults": 2, "expiries": 500}
+REQUIRED = {"recv_cases": 500, "recv_success": 50, "recv_fault": 50, "send_cases": 6, "race_cases": 100, "cases_next_to_other_entity_with_own_fault_table": 50, "sender_check_limit_faults": 2, "send_cases_with_paced_link": 6, "expiries": 500}
